@@ -160,7 +160,16 @@ pub fn install_panic_hook() {
             // last two path segments without the hash suffix
             let segs = func.split("::").filter(|p| !(p.starts_with('h') && p.len() == 17)).collect::<Vec<_>>();
             let short = segs.iter().rev().take(2).rev().cloned().collect::<Vec<_>>().join("::");
-            short.chars().filter(|c| c.is_alphanumeric() || *c == '_' || *c == ':').take(48).collect()
+            let short: String = short.chars().filter(|c| c.is_alphanumeric() || *c == '_' || *c == ':').take(48).collect();
+            // closure numbering depends on unrelated code in the same function
+            let mut out = String::new();
+            let mut rest = short.as_str();
+            while let Some(p) = rest.find("closure") {
+                out.push_str(&rest[..p + 7]);
+                rest = rest[p + 7..].trim_start_matches(|c: char| c.is_ascii_digit());
+            }
+            out.push_str(rest);
+            out
         };
         for line in bt.lines() {
             let t = line.trim();
@@ -930,13 +939,34 @@ pub fn load_findings() -> Vec<Finding> {
     }
 }
 
+/// glob match with '*' standing for any (possibly empty) substring
+pub fn glob_match(pat: &str, text: &str) -> bool {
+    let parts: Vec<&str> = pat.split('*').collect();
+    if parts.len() == 1 {
+        return pat == text;
+    }
+    let mut pos = 0;
+    for (i, part) in parts.iter().enumerate() {
+        if i == 0 {
+            if !text.starts_with(part) {
+                return false;
+            }
+            pos = part.len();
+        } else if i == parts.len() - 1 {
+            return text.len() >= pos + part.len() && text[pos..].ends_with(part);
+        } else {
+            match text[pos..].find(part) {
+                Some(p) => pos += p + part.len(),
+                None => return false,
+            }
+        }
+    }
+    true
+}
+
 pub fn match_finding<'a>(findings: &'a [Finding], prop: &str, sig: &str) -> Option<&'a Finding> {
     let cls = sig_class(sig);
-    findings.iter().find(|f| {
-        f.status == "known"
-            && (f.properties.iter().any(|p| p == prop || p == "*"))
-            && f.sigs.iter().any(|s| cls == s || (s.ends_with('*') && cls.starts_with(&s[..s.len() - 1])))
-    })
+    findings.iter().find(|f| f.status == "known" && (f.properties.iter().any(|p| p == prop || p == "*")) && f.sigs.iter().any(|s| glob_match(s, cls)))
 }
 
 // ---------------------------------------------------------------------------------------------
@@ -1150,7 +1180,7 @@ pub fn run_check(prop: &'static Prop, tier: Tier, seed: u64) -> i32 {
             let res = replay_isolated(prop, &r["case"], &rundir, &format!("{}-{}", fd.id, ri));
             match (fd.status.as_str(), res) {
                 ("known", Some(f)) => {
-                    let same = fd.sigs.iter().any(|s| sig_class(&f.sig) == s || (s.ends_with('*') && f.sig.starts_with(&s[..s.len() - 1])));
+                    let same = fd.sigs.iter().any(|s| glob_match(s, sig_class(&f.sig)));
                     if same {
                         if !reproduced.contains(&fd.id) {
                             reproduced.push(fd.id.clone());
